@@ -8,6 +8,7 @@ import (
 	"reflect"
 	"sort"
 	"strings"
+	"verif/lib/enum"
 
 	"gopkg.in/typ.v4/avl"
 	"verif/lib/fp"
@@ -112,8 +113,19 @@ func (h *H[T]) observe() obs {
 		}
 		return r
 	}
-	return obs{h.T.Len(), conv(h.T.SlicePreOrder()), conv(h.T.SliceInOrder()), conv(h.T.SlicePostOrder())}
+	pre, in, post := h.T.SlicePreOrder(), h.T.SliceInOrder(), h.T.SlicePostOrder()
+	if Ledger != nil {
+		// the returned slices stay referenced and are read again after many later calls (on this and
+		// on other trees): a slice that was returned must not change afterwards
+		Ledger.Keep("SlicePreOrder", pre, nil)
+		Ledger.Keep("SliceInOrder", in, nil)
+		Ledger.Keep("SlicePostOrder", post, nil)
+	}
+	return obs{h.T.Len(), conv(pre), conv(in), conv(post)}
 }
+
+// Ledger, when set by a check's main, receives the slices returned by the Slice* observers.
+var Ledger *enum.E
 
 func (h *H[T]) Apply(op seqmc.Op) *seqmc.Fail {
 	switch op.Name {
